@@ -44,6 +44,9 @@ pub const ALPHABET: [&str; 14] = [
     "a = a + 1; b[9]; a = a + 100",
 ];
 
+/// instruction bound of a session line that has no cut of its own
+pub const RUNAWAY_BUDGET: u64 = 5_000_000;
+
 #[derive(Clone, Debug)]
 pub struct LineObs {
     pub outcome: Outcome,
@@ -69,7 +72,8 @@ pub fn run_session_real(lines: &[Line], shadow: ShadowMode, probes: bool) -> (Ve
         let mut vm = VM::new();
         for l in lines {
             verif::reset_run();
-            verif::set_budget(l.budget);
+            // (a line without a cut still gets a bound: a generated line must not be able to hang a session)
+            verif::set_budget(l.budget.or(Some(RUNAWAY_BUDGET)));
             let step = catch_unwind(AssertUnwindSafe(|| {
                 let ast = match nederlang::parser::parse(&l.text) {
                     Ok(a) => a,
@@ -685,6 +689,11 @@ impl C17 {
         let (obs_lines, events) = run_session_real(lines, shadow, probes);
         st.evaluations += 1;
         st.add("lines", obs_lines.len() as u64);
+        // a line without a cut that ran into the runaway bound: a generated loop that does not end — not a session to judge
+        if obs_lines.iter().zip(lines.iter()).any(|(o, l)| l.budget.is_none() && matches!(o.outcome, Outcome::Budget)) {
+            st.count("sessions-not-judged:runaway-line");
+            return true;
+        }
         let mut ok = true;
         // (3a) monitor events anywhere in the session
         if !events.is_empty() {
